@@ -205,7 +205,7 @@ DATAGRAM_KANI = [
     K("c_datagram_write_size", "in-place contract (modular vs header_size): write_size == header + payload", [P + "datagram.rs::Datagram::write_size"]),
     K("p_datagram_roundtrip_16", "all qids, payload <= 16, all buffer sizes: write all-or-nothing == varint(qid)||payload, returns write_size; read(write(d)) == d, payload zero-copy",
       [P + "datagram.rs::Datagram::{new,write,read,qstream_id,payload}"], kind="bounded", bound="payload length <= 16 (header complete: all qids)"),
-    K("p_datagram_roundtrip_1200", "same with payload <= 1200", [P + "datagram.rs::Datagram::{write,read}"], kind="bounded", bound="payload length <= 1200", tier="thorough"),
+    K("p_datagram_roundtrip_256", "same with payload <= 256", [P + "datagram.rs::Datagram::{write,read}"], kind="bounded", bound="payload length <= 256", tier="thorough"),
     K("p_datagram_read_total", "every byte string <= 12: Ok iff complete varint <= 2^60-1, payload == rest; else H3_DATAGRAM_ERROR; no panic", [P + "datagram.rs::Datagram::read"]),
 ]
 
@@ -271,7 +271,7 @@ PROPS = {
     "C03": {
         "level": "proof",
         "claim": "Datagram codec and size arithmetic: for every quarter stream id and payload the encoder emits varint(qid)||payload with the exact announced size (all-or-nothing), the decoder returns exactly the remaining bytes as payload (zero-copy) for every input, rejects ids > 2^60-1 / truncated ids with H3_DATAGRAM_ERROR, and the header overhead used for the size contract is exactly the varint length.",
-        "note": "Payload length bounded (16 quick / 1200 thorough) on Kani; header part complete. Assumed: quinn refuses exactly frames above its max_datagram_size; loss/reordering are transport behaviour. Not decided: Driver::receive_datagram session filtering (async).",
+        "note": "Payload length bounded (16 quick / 256 thorough) on Kani; proto and driver Datagram::read for ANY length are Verus unit `datagram`; header part complete. Assumed: quinn refuses exactly frames above its max_datagram_size; loss/reordering are transport behaviour. Not decided: Driver::receive_datagram session filtering (async).",
         "kani": DATAGRAM_KANI + [DRIVER_DGRAM_HDR],
         "verus": [V("datagram")],
         "not_decided": ["quinn::Connection::send_datagram limit", "per-session filtering in the worker"],
@@ -322,7 +322,7 @@ PROPS = {
     "C14": {
         "level": "proof",
         "claim": "Exact inverses with exact sizes for varints (all v < 2^62, all four reader/writer impls, shortest form, untouched-on-error), stream headers (complete), frame headers (complete) with payloads up to the stated bound, datagrams, and QPACK prefix integers (all usize values, all widths); the QPACK static table is RFC 9204 Appendix A.",
-        "note": "Frame/datagram payload length is bounded on Kani (8/70, 16/1200). Field sections and settings maps as wholes go through HashMap/iterators and are NOT claimed (Huffman codec, HashMap, Vec trusted).",
+        "note": "Frame/datagram payload length is bounded on Kani (8/70, 16/256); frame encoders for ANY payload length are Verus unit frame_write. Field sections and settings maps as wholes go through HashMap/iterators and are NOT claimed (Huffman codec, HashMap, Vec trusted).",
         "kani": VARINT_KANI + FRAME_WRITE_KANI + [FRAME_READ_20, STREAM_HEADER_KANI[1], DATAGRAM_KANI[0], DATAGRAM_KANI[1], DATAGRAM_KANI[2], DATAGRAM_KANI[3]]
                 + QPACK_INT_ENC + [QPACK_MISC[1], QPACK_LOOKUP, VEC_PUT_BYTES],
         "verus": [V("ids", pair=("proto", "c_varint_size")), V("qpack_encode"), V("frame_write", pair=("proto", "p_frame_write_roundtrip_8"))],
